@@ -226,7 +226,7 @@ def fit_cases(ctx, rs, nfits):
                     kw["M"] = float(rs.choice([1.0, 0.25]))
         if fl.accepts(cls, "ovo"):
             kw["ovo"] = bool(rs.randint(2))
-        if nfits - 9 - max(8, nfits // 5) <= it < nfits - 9:
+        if nfits - 12 - max(8, nfits // 5) <= it < nfits - 12:
             # dedicated: sparse MLP under a penalty that eliminates features within a few steps
             fam, cls = "SparseMLPModel", E["SparseMLPModel"]
             n, d, K = 8, 3, 2
@@ -240,9 +240,9 @@ def fit_cases(ctx, rs, nfits):
             if d > 2:
                 X = X[:, :2]; d = 2
         decorated = fam in ("LinearModel", "MLPModel", "CategoricalModel") and rs.rand() < 0.7
-        if it >= nfits - 9:
+        if it >= nfits - 12:
             # dedicated block: each decorable family with each multi-pair shape, all samples in one batch
-            fam = ["LinearModel", "MLPModel", "CategoricalModel"][(it - (nfits - 9)) % 3]
+            fam = ["LinearModel", "MLPModel", "CategoricalModel"][(it - (nfits - 12)) % 3]
             cls = E[fam]
             decorated = True
             kw = dict(n_clusters=K, max_iter=2, solver=str(rs.choice(["adam", "sgd"])), random_state=int(rs.randint(100)),
@@ -255,7 +255,8 @@ def fit_cases(ctx, rs, nfits):
         if decorated:
             perm = rs.permutation(n)
             factor = float(rs.choice([0.5, 2.0]))
-            shape = (1 + (it - (nfits - 9)) // 3) if it >= nfits - 9 else int(rs.randint(4))
+            shape = ((it - (nfits - 12)) // 3) if it >= nfits - 12 else int(rs.randint(4))
+            refused_block = it >= nfits - 12 and shape == 0
             if shape == 0:      # disjoint pairs
                 ml, cl = [(int(perm[0]), int(perm[1]))], [(int(perm[2]), int(perm[3]))]
             elif shape == 1:    # a sample shared by several pairs of the same kind, in the same position (star)
@@ -265,12 +266,25 @@ def fit_cases(ctx, rs, nfits):
             else:               # star of cannot-links only
                 ml, cl = [], [(int(perm[0]), int(perm[1])), (int(perm[0]), int(perm[2])), (int(perm[0]), int(perm[3]))]
             ctx.count(f"mlcl_shape:{shape}")
-            try:
-                model = gemclus.add_mlcl_constraint(model, ml, cl, factor)
-            except ValueError:
-                ctx.count("mlcl_rejected_valid_pairs(see C14)")
-                continue
-            inp["must_link"], inp["cannot_link"], inp["factor"] = ml, cl, factor
+            if shape == 0 and (refused_block or rs.rand() < 0.5):
+                # a CONTRADICTORY constraint set is refused (ValueError); the estimator must then train as an undecorated one
+                bad_ml, bad_cl = [(int(perm[0]), int(perm[1])), (int(perm[1]), int(perm[2]))], [(int(perm[0]), int(perm[2]))]
+                try:
+                    gemclus.add_mlcl_constraint(model, bad_ml, bad_cl, factor)
+                    ctx.count("contradictory_constraints_accepted(see C14)")
+                    continue
+                except ValueError:
+                    ctx.count("mlcl:refused-then-fit")
+                decorated, ml, cl = False, [], []
+                inp["refused_constraints"] = {"must_link": bad_ml, "cannot_link": bad_cl}
+                inp["decorated"] = False
+            else:
+                try:
+                    model = gemclus.add_mlcl_constraint(model, ml, cl, factor)
+                except ValueError:
+                    ctx.count("mlcl_rejected_valid_pairs(see C14)")
+                    continue
+                inp["must_link"], inp["cannot_link"], inp["factor"] = ml, cl, factor
         steps = []
         try:
             with fl.capture_updates() as ups:
@@ -367,5 +381,5 @@ def run(ctx):
         ctx.case((unit, np.asarray(vals).tobytes()), True, None)
         if not core.close_vec(list(map(float, vals)), m, rtol=1e-9):
             ctx.corr_break("model:" + unit, inp, {"impl": list(map(float, vals)), "model": m})
-    fit_cases(ctx, rs, 40 if ctx.tier == "quick" else 400)
+    fit_cases(ctx, rs, 44 if ctx.tier == "quick" else 400)
     return ctx.finish()
